@@ -926,6 +926,7 @@ class Walker:
                    ast.NotEq: ast.Eq}[type(test.ops[0])]()
             t2 = ast.Compare(test.left, [pos], test.comparators)
             ast.copy_location(t2, test)
+            t2._orig = test
             for truth, s in self.branch(t2, st):
                 if isinstance(truth, Exit):
                     yield truth, s
@@ -939,6 +940,7 @@ class Walker:
             s = ex.state
             sym = self.canon(s, test)
             key = sym.text
+            evnode = getattr(test, '_orig', test)
             memo = s.memo.get(key)
             if memo is not None and memo[1] == sym.stamp:
                 truth = memo[0]
@@ -951,7 +953,7 @@ class Walker:
                 s2 = s.copy()
                 for tv, ss in ((True, s), (False, s2)):
                     ss.memo[key] = (tv, sym.stamp)
-                    for e2 in self.emit(ss, Event('cond', test, sym=sym,
+                    for e2 in self.emit(ss, Event('cond', evnode, sym=sym,
                                                   extra=tv)):
                         if e2.kind == 'fall':
                             yield tv, e2.state
@@ -959,7 +961,7 @@ class Walker:
                             yield e2, None
             else:
                 s.memo[key] = (truth, sym.stamp)
-                for e2 in self.emit(s, Event('cond', test, sym=sym,
+                for e2 in self.emit(s, Event('cond', evnode, sym=sym,
                                              extra=truth)):
                     if e2.kind == 'fall':
                         yield truth, e2.state
